@@ -63,6 +63,8 @@ def classify(an, f, r, sh, n, lv):
             dd = f.decl(d)
             if not (dd.get('ref') or dd.get('ptr')):
                 return 'private'
+            if dd.get('ptr') and not idx and unwrap(lv)['k'] == 'ref':
+                return 'private'      # ++p / p = q on a thread-private pointer variable moves the cursor, it writes no shared data
             init = None
             for m in walk(r.node):
                 if m['k'] == 'decl':
